@@ -349,6 +349,12 @@ def run(ctx):
                                           'myth_join_body', 'myth_tryjoin_body', 'myth_join_2', 'myth_join_3', 'myth_entry_point_cleanup',
                                           'myth_entry_point_1', 'myth_entry_point_2'], stops=stops01, flavour=fl)
             ctx.attempt(c01.rule6_finish, ctx, v01)
+        with ctx.shared({'C12.2': 'C13.11'}, keep=lambda k: k.startswith('myth_detach_body'), floor=5,
+                        doc='detach races with the finisher only under the record lock (shared with C12.2): the detached flag is set with '
+                            'th->lock held on the not-finished edge and a finished record is released only after FREE_READY2 - a flag set '
+                            'after the unlock is missed by a finisher that already tested it, and then nobody reaps the record'):
+            v12 = ctx.view(NATIVE, roots=['myth_entry_point_1', 'myth_entry_point_2', 'myth_detach_body'], stops=c12.STOPS2, flavour=fl)
+            ctx.attempt(c12.rule2_order, ctx, v12)
         ctx.doc('C13.7', 'the reaping entry points do not use a worker env obtained before they blocked (stale-value dataflow, shared with '
                 'C12.3): a record released to the free list of the worker the joiner started on is never found again by the worker '
                 'that allocates, so create/reap cycles grow without bound')
@@ -368,6 +374,8 @@ def run(ctx):
 SCHED = 'src/myth_sched_func.h'
 WRAP = 'src/myth_wrap_pthread.c'
 MUTANTS = [
+    {'name': 'detach sets the flag after releasing the record lock: a finisher that already tested it leaves the record to nobody (hand mutant r6)', 'expect': 'C13.11',
+     'edits': [(SCHED, "    myth_desc_set_detached(th);\n    myth_spin_unlock_body(&th->lock);", "    myth_spin_unlock_body(&th->lock);\n    myth_desc_set_detached(th);")]},
     {'name': 'detach-state attribute applied on the child-first path only (seed4 C13/m3)', 'expect': 'C13.2',
      'edits': [(SCHED, "  if (attr && attr->detachstate) {\n    /* created detached: the finisher releases the descriptor */\n    new_thread->detached = 1;\n  }\n  new_thread->result = arg;", "  new_thread->result = arg;"),
                (SCHED, "    myth_make_context_empty(&new_thread->context, stk, stk_size);\n", "    myth_make_context_empty(&new_thread->context, stk, stk_size);\n    if (attr && attr->detachstate) new_thread->detached = 1;\n")]},
